@@ -8,7 +8,7 @@ from . import core
 CORE = ["sexp.c", "gc.c", "bignum.c", "eval.c", "vm.c", "opcodes.c", "simplify.c", "gc_heap.c"]
 
 
-def run_driver(workdir, name, code, include_c=(), extra_c=(), args=(), asan=True, timeout=60):
+def run_driver(workdir, name, code, include_c=(), extra_c=(), args=(), asan=True, timeout=60, ldflags=()):
     """include_c: repo-relative .c files the driver #includes itself (not linked again).
     returns (rc, output)"""
     core.prepare()
@@ -21,11 +21,11 @@ def run_driver(workdir, name, code, include_c=(), extra_c=(), args=(), asan=True
     link += [os.path.join(core.REPO, c) for c in extra_c]
     cmd = ["gcc", "-O0", "-g", "-w"] + (["-fsanitize=address", "-fno-omit-frame-pointer"] if asan else []) + \
         [d for d in core.CDEFS if d != "-DVERIF_CBMC=1"] + \
-        ["-I" + os.path.join(core.REPO, "include"), "-I" + core.GENINC, "-I" + core.REPO, src] + link + ["-o", exe, "-lm", "-ldl"]
+        ["-I" + os.path.join(core.REPO, "include"), "-I" + core.GENINC, "-I" + core.REPO, src] + link + ["-o", exe, "-lm", "-ldl"] + list(ldflags)
     rc, o, _ = core.sh(cmd, timeout=180)
     if rc != 0:
         return -1, "native driver does not compile:\n" + o[-3000:]
     env_cmd = [exe] + [str(a) for a in args]
-    os.environ["ASAN_OPTIONS"] = "detect_leaks=0"
+    os.environ["ASAN_OPTIONS"] = "detect_leaks=0:detect_odr_violation=0"
     rc, o, _ = core.sh(env_cmd, timeout=timeout)
     return rc, o
